@@ -46,6 +46,11 @@ def run(ctx):
     ctx.harness("vh-graph", ["plan", "--graphs", g3, "--out", t3, "--sample-requests", 4 if ctx.quick else 10])
     traces.append(t3)
     ctx.cov["graphs"] = {"one_op_exhaustive": n1, "two_op_exhaustive": n2, "simulated": n3}
+    if not ctx.quick:
+        # implementation-shaped transcription of planner.rs (visit stack, active set, sort_plan frontier)
+        # model-checked against the contract incl. termination on every 1-operator graph x request
+        ctx.tlc_mc("graph/PlannerImpl", "graph/PlannerImpl1.cfg", workers=8, timeout=3000, heap="12g",
+                   label="transcription of create_plan/visit/sort_plan satisfies the Planner contract and terminates")
     judge(ctx, traces)
 
 
